@@ -21,6 +21,7 @@ static BlockParameters build_bp(const ParamSpec& s) {
     case 6: h.query_response_hints = 0x15555 | 0x10; h.query_response_signature_hints = 0x0aaaa; h.rr_hints = 1; break;              // alternating members: neighbours in every map are split
     case 7: h.query_response_hints = 0x2aaaa | 0x10; h.query_response_signature_hints = 0x15555; h.rr_hints = 2; break;
     }
+    if (s.coll == 4) { sp.opcodes.clear(); sp.rr_types.clear(); }   // mandatory list members, present but empty
     if (s.coll == 2) bp.collection_parameters = CollectionParameters();
     if (s.coll == 3) { CollectionParameters c; c.snaplen = 65535; bp.collection_parameters = c; }
     if (s.coll == 1) { CollectionParameters c; c.query_timeout = 5; c.promisc = true; c.interfaces = {"eth0", "lo"}; c.vlan_ids = {1, 4094}; c.host_id = std::string("h\xc3\xa9"); bp.collection_parameters = c;
@@ -72,6 +73,8 @@ static Pools make_pools(uint64_t tps) {
     GenericMalformedMessage m1; m1.client_port = 7; p.mm.push_back(m1);
     GenericMalformedMessage m2; p.mm.push_back(m2);                                               // no field: not storable
     GenericMalformedMessage m3; m3.ts = T(1400000000, 0); m3.mm_payload = std::string(""); p.mm.push_back(m3);       // earliest of all, empty payload
+    GenericMalformedMessage m4; m4.mm_payload = std::string("only-the-payload"); p.mm.push_back(m4);                    // nothing but message data: payload
+    GenericMalformedMessage m5; m5.server_ip = ip4b; m5.server_port = 5353; m5.mm_transport_flags = (QueryResponseTransportFlagsMask)2; p.mm.push_back(m5);   // nothing but message data: server side
     p.stats.push_back(boost::none);
     BlockStatistics s1; s1.processed_messages = 10; s1.qr_data_items = 5; s1.unmatched_queries = 1; s1.unmatched_responses = 2; s1.discarded_opcode = 0; s1.malformed_items = 4294967295u; p.stats.push_back(s1);
     BlockStatistics s2; s2.processed_messages = 77; p.stats.push_back(s2);
